@@ -39,6 +39,7 @@ func init() { register("C09", runC09) }
 func runC09(c *Ctx) {
 	c09Bf128(c)
 	c09Bits(c)
+	c09BitsBytes(c)
 	c09BaseOTs(c)
 	c09Softspoken(c)
 	c09Rvole(c)
